@@ -49,6 +49,9 @@ def model_list():
     out.append({'k': 4, 'edges': [(A[0], A[1]), (A[1], A[2]), (A[2], A[3])], 'name': 'chain4'})
     out.append({'k': 4, 'edges': [(A[0], A[1]), (A[0], A[2]), (A[0], A[3])], 'name': 'star4'})
     out.append({'k': 3, 'edges': [(A[0], A[1], A[2])], 'name': 'triple3'})
+    # chordless 4-cycle (needs fill-in: the generation parents must come from the triangulated cliques) and the diamond
+    out.append({'k': 4, 'edges': [(A[0], A[1]), (A[1], A[2]), (A[2], A[3]), (A[3], A[0])], 'name': 'cycle4', 'scale': 2.5})
+    out.append({'k': 4, 'edges': [(A[0], A[1]), (A[1], A[2]), (A[2], A[3]), (A[3], A[0]), (A[0], A[2])], 'name': 'diamond4'})
     return out
 
 
@@ -61,7 +64,7 @@ def jobs(tier, seed):
 
 
 class World:
-    def __init__(self, mi, vclass, total, seed):
+    def __init__(self, mi, vclass, total, seed, with_marginals=False):
         from mbi import Domain, GraphicalModel
         spec = model_list()[mi]
         k = spec['k']
@@ -72,7 +75,7 @@ class World:
         rng = np.random.RandomState(zlib.crc32(repr((seed, mi, vclass)).encode()) % 2 ** 31)
         pots = []
         for c in cliques:
-            pots.append((c, rng.randn(*[self.sizes[self.attrs.index(a)] for a in c])))
+            pots.append((c, spec.get('scale', 1.0) * rng.randn(*[self.sizes[self.attrs.index(a)] for a in c])))
         for a in self.attrs:
             pots.append(((a,), 0.5 * rng.randn(self.sizes[self.attrs.index(a)])))
         if vclass == 'zero-cells':
@@ -85,10 +88,20 @@ class World:
                 if c == ('B',):
                     arr[1] = -np.inf
         self.pots = pots
-        dom = Domain(self.attrs, self.sizes)
-        self.model = GraphicalModel(dom, cliques + [(a,) for a in self.attrs if not any(a in c for c in cliques)], total=total)
-        self.model.potentials = model_potentials(self.model, self.attrs, self.sizes, pots)
+        self.cliques = cliques
+        self.with_marginals = with_marginals
+        self.model = self.fresh_model()
         self.joint = O.explicit_joint(self.attrs, self.sizes, pots, total)
+
+    def fresh_model(self):
+        """a new model object per execution (no state shared between explored executions)"""
+        from mbi import Domain, GraphicalModel
+        dom = Domain(self.attrs, self.sizes)
+        m = GraphicalModel(dom, self.cliques + [(a,) for a in self.attrs if not any(a in c for c in self.cliques)], total=self.total)
+        m.potentials = model_potentials(m, self.attrs, self.sizes, self.pots)
+        if self.with_marginals and O.explicit_joint(self.attrs, self.sizes, self.pots, self.total) is not None:
+            m.marginals = m.belief_propagation(m.potentials)   # as models returned by the estimators carry them
+        return m
 
 
 class SynthEnv:
@@ -208,19 +221,38 @@ def check_output(w, ds, rows_expected, method, env):
     return fails, worst
 
 
-def run_exec(w, rows, method, prefix):
+FIRST_CALLS = {None: None, 'round5': (5, 'round'), 'sample7': (7, 'sample'), 'round-default': (None, 'round')}
+
+
+def model_state(m):
+    parts = [np.array(m.potentials[cl].values, copy=True) for cl in m.cliques]
+    if hasattr(m, 'marginals'):
+        parts += [np.array(m.marginals[cl].values, copy=True) for cl in m.cliques]
+    return parts
+
+
+def run_exec(w, rows, method, prefix, first=None):
+    model = w.fresh_model()
+    w.model = model
+    state0 = model_state(model)
+    if first is not None:
+        r1, m1 = FIRST_CALLS[first]
+        with E.installed(SynthEnv(E.Controller([]))), M.quiet():
+            model.synthetic_data(rows=r1, method=m1) if r1 is not None else model.synthetic_data(method=m1)
     ctrl = E.Controller(prefix)
     env = SynthEnv(ctrl)
     with E.installed(env), M.quiet():
-        ds = w.model.synthetic_data(rows=rows, method=method) if rows is not None else w.model.synthetic_data(method=method)
+        ds = model.synthetic_data(rows=rows, method=method) if rows is not None else model.synthetic_data(method=method)
+    state1 = model_state(model)
+    env.model_mutated = len(state0) != len(state1) or any(not np.array_equal(a, b, equal_nan=True) for a, b in zip(state0, state1))
     return ctrl, env, ds
 
 
-def explore_case(acc, job, w, total, rows, method, bound, only_prefix=None):
+def explore_case(acc, job, w, total, rows, method, bound, only_prefix=None, first=None):
     rows_expected = int(total) if rows is None else rows
 
     def run(prefix):
-        ctrl, env, ds = run_exec(w, rows, method, prefix)
+        ctrl, env, ds = run_exec(w, rows, method, prefix, first)
         ctrl.env, ctrl.ds = env, ds
         return ctrl
     it = [run(only_prefix)] if only_prefix is not None else E.explore(run, bound, cap=4000)
@@ -228,12 +260,14 @@ def explore_case(acc, job, w, total, rows, method, bound, only_prefix=None):
     for ctrl in it:
         nexec += 1
         case = {'mi': job['mi'], 'vclass': job['vclass'], 'total': total, 'rows': rows, 'method': method, 'prefix': list(ctrl.choices) if ctrl.deviations else [],
-                'seed': job['seed']}
+                'seed': job['seed'], 'marginals': w.with_marginals, 'first': first}
         acc.case(case, nontrivial=rows_expected >= 2 and len(w.model.cliques) < len(w.attrs))
         acc.traces += 1
         acc.states += len(ctrl.points) + 1
         acc.transitions += len(ctrl.log)
         fails, worst = check_output(w, ctrl.ds, rows_expected, method, ctrl.env)
+        if ctrl.env.model_mutated:
+            fails.append(('model-mutated', 'synthetic_data changed the parameters / cached marginals of the model it was called on'))
         acc.maximum('round_error_over_nattrs', worst / len(w.attrs), case)
         acc.outcome('%s:dev%d:%s' % (method, ctrl.deviations, 'ok' if not fails else 'FAIL'))
         for kd in sorted({k for k, _ in fails}):
@@ -268,14 +302,20 @@ def run_job(job):
                 if n >= 100000:
                     bound = 0
                 explore_case(acc, job, w, total, rows, method, bound)
+        # models as returned by the estimators (carrying cached marginals), and a second call on the same object (history)
+        wm = World(job['mi'], job['vclass'], total, job['seed'], with_marginals=True)
+        for rows in [None, 3, 100, 10000]:
+            for method in ['round', 'sample']:
+                for first in ([None, 'round5', 'sample7'] if rows in (100, 10000) else [None]):
+                    explore_case(acc, job, wm, total, rows, method, 0, first=first)
     acc.sample({'model': model_list()[job['mi']], 'vclass': job['vclass'], 'total': 7.9, 'rows': 10, 'method': 'round', 'decisions': [0, 1, 0, 2]})
     return acc
 
 
 def replay(case):
     acc = Acc()
-    w = World(case['mi'], case['vclass'], case['total'], case['seed'])
-    explore_case(acc, case, w, case['total'], case['rows'], case['method'], 0, only_prefix=case['prefix'])
+    w = World(case['mi'], case['vclass'], case['total'], case['seed'], with_marginals=case.get('marginals', False))
+    explore_case(acc, case, w, case['total'], case['rows'], case['method'], 0, only_prefix=case['prefix'], first=case.get('first'))
     for v in acc.violations:
         print(v['msg'])
     return acc.violations
